@@ -1561,6 +1561,10 @@ class RTCSctpTransport(AsyncIOEventEmitter):
             self._reconfig_timer_cancel()
             self.__state = "closed"
 
+            # a stream reset request does not outlive its association
+            self._reconfig_queue = []
+            self._reconfig_request = None
+
             # close data channels
             for stream_id in list(self._data_channels.keys()):
                 self._data_channel_closed(stream_id)
@@ -1830,8 +1834,9 @@ class RTCSctpTransport(AsyncIOEventEmitter):
                 channel._setReadyState("closed")
 
     def _data_channel_closed(self, stream_id: int) -> None:
-        channel = self._data_channels.pop(stream_id)
-        channel._setReadyState("closed")
+        channel = self._data_channels.pop(stream_id, None)
+        if channel is not None:
+            channel._setReadyState("closed")
 
     async def _data_channel_flush(self) -> None:
         """
